@@ -40,7 +40,9 @@ class Twin:
     def __init__(self, fe, S):
         self.fe = fe
         self.S = S
-        self.face = RecFace()
+        # the forwarder may sit on this machine or on another one (isLocalFace): no input of how envelopes are processed
+        Twin.count = getattr(Twin, 'count', 0) + 1
+        self.face = RecFace(local=(Twin.count // 2) % 2 == 0)
         self.app = appv2.NDNApp(face=self.face) if fe == 'v2' else appv1.NDNApp(face=self.face, keychain=KeychainDigest())
         self.log = []
         self.pend = {}
@@ -210,7 +212,9 @@ def check_nack(ctx, rng, fe):
     async def main(S):
         T = Twin(fe, S)
         await T.start()
-        names = {'A': [C(b'n'), C(b'a')], 'B': [C(b'n'), C(b'b')], 'AB': [C(b'n'), C(b'a'), C(b'b')], 'N': [C(b'n')]}
+        # D and Dp differ only in a trailing implicit-digest component: two different Interest names filed under one table node
+        names = {'A': [C(b'n'), C(b'a')], 'B': [C(b'n'), C(b'b')], 'AB': [C(b'n'), C(b'a'), C(b'b')], 'N': [C(b'n')],
+                 'D': [C(b'n'), C(b'd'), rc.comp(1, bytes(range(32)))], 'Dp': [C(b'n'), C(b'd')]}
         knames = dict(names)
         if fe == 'v2':
             T.app.attach_handler([C(b'n')], lambda n, p, reply, c: T.log.append(('handler', tuple(bytes(x) for x in n), None, None)))
